@@ -325,8 +325,104 @@ def run_in_case(ctx, rng, n, mon):
                       {'engine': show_rows(rows, 30), 'expected': show_rows(mrows, 30)})
 
 
+PERIODS = ['', 'OPEN ON 2020-01-01', 'CLOSE ON 2020-07-01', 'OPEN ON 2019-07-01 CLOSE ON 2020-07-01', 'CLEAR', 'OPEN ON 2020-01-01 CLEAR', 'CLOSE',
+           'OPEN ON 2019-03-01 CLOSE ON 2021-01-01 CLEAR']
+FILTERS = ['', 'year >= 2020', 'flag = "*"', 'NOT has_account("Broker")']
+INNERS = [('account', 'SELECT DISTINCT account {frm} WHERE number > {n}'), ('account', 'SELECT account {frm} WHERE currency != "USD"'),
+          ('year', 'SELECT year {frm} WHERE number > {n} AND account ~ "Expenses"'), ('currency', 'SELECT DISTINCT currency {frm} WHERE cost_number IS NOT NULL'),
+          ('account', 'SELECT account {frm} GROUP BY account HAVING count(*) > 2'), ('date', 'SELECT max(date) AS d {frm} GROUP BY account')]
+
+
+def run_ledger_case(ctx, rng, n, mon):
+    """Ledger statements whose period clauses (OPEN / CLOSE / CLEAR) and filter expressions differ between the enclosing
+    statement and its IN sub-select / FROM sub-query: the sub-query evaluates exactly as it does on its own."""
+    from .. import ledgers
+    led = ledgers.gen_ledger(rng, ntxn=rng.randint(6, ctx.pick(14, 30)))
+    conn = engine.connection(ledger=led.loaded)
+
+    def frm(period, filt):
+        body = ' '.join(x for x in (filt, period) if x)
+        return f'FROM {body}' if body else ''
+    for _ in range(ctx.pick(3, 6)):
+        col, inner_t = rng.choice(INNERS)
+        # (a sub-select without any FROM clause reads whatever table the enclosing statement reads, period view included: it has
+        # no meaning "on its own", so the sub-selects here always carry a FROM clause)
+        inner = inner_t.format(frm=frm(rng.choice(PERIODS), rng.choice(FILTERS)) or 'FROM year > 1000', n=rng.choice([0, 50, 500]))
+        outer_from = frm(rng.choice(PERIODS), rng.choice(FILTERS))
+        neg = rng.random() < 0.3
+        op = 'NOT IN' if neg else 'IN'
+        case = {'replay': ['ledger', n], 'ledger': led.text}
+        try:
+            _, _, vals = engine.run(conn, inner)
+            vals = [r[0] for r in vals]
+            _, _, base = engine.run(conn, f'SELECT date, account, number, currency, year, {col} AS probe {outer_from}')
+            text_w = f'SELECT date, account, number, currency, year, {col} AS probe {outer_from} WHERE {col} {op} ({inner})'
+            _, _, in_where = engine.run(conn, text_w)
+            text_t = f'SELECT date, account, {col} {op} ({inner}) AS m {outer_from}'
+            _, _, in_target = engine.run(conn, text_t)
+            text_a = f'SELECT account, count(*) AS c, sum(number) AS s {outer_from} WHERE {col} {op} ({inner}) GROUP BY account'
+            _, _, in_agg = engine.run(conn, text_a)
+        except Exception as exc:  # noqa: BLE001
+            ctx.violation(f'c08.ledger_subquery_raised.{monitors.classify_exception(exc)}', f'{inner} inside {outer_from!r}: {type(exc).__name__}: {exc}', case)
+            return
+
+        def member(v):
+            # as for the harness-table cases: a NULL operand or an empty sub-query result gives NULL, else plain membership
+            if v is None or not vals:
+                return None
+            hit = any(v == x for x in vals)
+            return (not hit) if neg else hit
+        ctx.count('obs.ledger_period_subqueries')
+        ctx.count('obs.ledger_period_subquery_values', len(vals))
+        ctx.case(('ledger', led.text, text_w), len(vals) >= 1 and len(base) >= 2)
+        exp_w = [tuple(r) for r in base if member(r[5]) is True]
+        if [tuple(r) for r in in_where] != exp_w:
+            ctx.violation('c08.ledger_in_subquery_vs_membership',
+                          f'{text_w}: {len(in_where)} rows; filtering the rows of the enclosing statement by membership in the sub-query\'s own result ({show(vals[:6])}...) gives {len(exp_w)}',
+                          dict(case, statement=text_w, subquery=inner))
+            return
+        exp_t = [member(r[5]) for r in base]
+        got_t = [r[2] for r in in_target]
+        if got_t != exp_t:
+            k = next(i for i, (a, b) in enumerate(zip(got_t + [None], exp_t + [None])) if a != b)
+            ctx.violation('c08.ledger_in_subquery_vs_membership', f'{text_t}: row {k} is {got_t[k] if k < len(got_t) else None}, membership in the sub-query\'s own result gives {exp_t[k] if k < len(exp_t) else None}',
+                          dict(case, statement=text_t, subquery=inner))
+            return
+        groups = {}
+        for r in exp_w:
+            g = groups.setdefault(r[1], [0, 0])
+            g[0] += 1
+            g[1] += r[2]
+        if [(r[0], r[1], r[2]) for r in in_agg] != [(a, c, s_) for a, (c, s_) in groups.items()]:
+            ctx.violation('c08.ledger_in_subquery_vs_membership', f'{text_a}: groups differ from grouping the member rows', dict(case, statement=text_a, subquery=inner))
+            return
+        # FROM (sub-query with its own period) = the same statement over the sub-query's own rows
+        sub = f'SELECT account AS a, number AS x, year AS y {frm(rng.choice(PERIODS), rng.choice(FILTERS))}'
+        text_f = f'SELECT a, sum(x) AS s, count(*) AS c FROM ({sub}) WHERE y >= 2019 GROUP BY a'
+        try:
+            _, _, srows = engine.run(conn, sub)
+            _, _, frows = engine.run(conn, text_f)
+        except Exception as exc:  # noqa: BLE001
+            ctx.violation(f'c08.ledger_subquery_raised.{monitors.classify_exception(exc)}', f'{text_f}: {type(exc).__name__}: {exc}', case)
+            return
+        groups = {}
+        for a, x, y in srows:
+            if y is not None and y >= 2019:
+                g = groups.setdefault(a, [0, 0])
+                g[0] += x
+                g[1] += 1
+        ctx.count('obs.ledger_period_from_subqueries')
+        if [tuple(r) for r in frows] != [(a, s_, c) for a, (s_, c) in groups.items()]:
+            ctx.violation('c08.ledger_from_subquery_vs_materialised', f'{text_f}: differs from grouping the sub-query\'s own rows', dict(case, statement=text_f))
+            return
+
+
 def run(ctx):
     mon = monitors.install()
+    for n in range(ctx.pick(12, 200)):
+        if ctx.out_of_time():
+            break
+        run_ledger_case(ctx, ctx.rng('ledger', n), n, mon)
     for n in range(ctx.pick(500, 9000)):
         if ctx.out_of_time():
             break
@@ -340,7 +436,7 @@ def run(ctx):
 def replay(ctx, case):
     mon = monitors.install()
     part, n = case['replay']
-    (run_from_case if part == 'from' else run_in_case)(ctx, ctx.rng(part, n), n, mon)
+    {'from': run_from_case, 'in': run_in_case, 'ledger': run_ledger_case}[part](ctx, ctx.rng(part, n), n, mon)
 
 
 def finalize(merged):
@@ -350,6 +446,8 @@ def finalize(merged):
         reasons.append('no FROM-sub-query case compared')
     if sum(v for k, v in c.items() if k.startswith('obs.in_cases')) == 0:
         reasons.append('no IN-sub-query case compared')
+    if c.get('obs.ledger_period_subqueries', 0) == 0 or c.get('obs.ledger_period_from_subqueries', 0) == 0:
+        reasons.append('no ledger sub-query with period clauses compared')
     if c.get('obs.star_cases', 0) == 0:
         reasons.append('no SELECT * FROM (q) case')
     if c.get('obs.in_subquery_with_limit', 0) == 0:
